@@ -60,6 +60,19 @@ type Det struct {
 	ViaOption bool `json:"via_option"`
 	// Split: on the New path start a new WithDetectors option here.
 	Split bool `json:"split"`
+	// StrDet: the detector is the library's own resource.StringDetector(
+	// Res.Schema, key, fn) for the single string key-value of Res (kind attrs);
+	// Err "other" makes fn fail. An empty key makes StringDetector itself
+	// report an (unrelated) error and no resource.
+	StrDet bool `json:"str_det,omitempty"`
+}
+
+// effErr is the error class the detector ends up reporting.
+func (d Det) effErr() string {
+	if d.StrDet && len(d.Res.KVs) == 1 && d.Res.KVs[0].K == "" {
+		return "other"
+	}
+	return d.Err
 }
 
 // DetCase is one detector list.
@@ -78,31 +91,42 @@ type DetCase struct {
 
 func genDetect(t *rapid.T) DetCase {
 	keys := shortKeys
-	if rapid.IntRange(0, 5).Draw(t, "longalpha") == 0 {
+	switch rapid.IntRange(0, 7).Draw(t, "alphabet") {
+	case 0:
 		keys = longKeys
+	case 1:
+		keys = wildKeys
 	}
 	c := DetCase{}
 	n := vk.GenLen(6, 2, 3, 4).Draw(t, "ndets")
 	// schema URLs: mostly one URL (so that conflict-free folds with URLs are
 	// frequent), sometimes any.
-	urls := schemas
+	urls := genSchemaPool(t, "schemas")
 	if rapid.Bool().Draw(t, "oneurl") {
-		urls = []string{"", rapid.SampledFrom(schemas[1:]).Draw(t, "url")}
+		urls = urls[:1]
 	}
+	strOpts := vk.KVOpts{Keys: keys, EmptyKey: true, InvalidUTF8: true, MaxTextParts: 3}
 	for i := 0; i < n; i++ {
 		d := Det{}
-		d.Res = genRes(t, fmt.Sprintf("d%d", i), keys, 5)
-		if d.Res.Kind == "attrs" {
-			d.Res.Schema = rapid.SampledFrom(urls).Draw(t, "schema")
+		d.Res = genRes(t, fmt.Sprintf("d%d", i), keys, 5, urls)
+		if d.Res.Kind == "attrs" || d.Res.Kind == "new" {
+			d.Res.Schema = pickSchema(t, "schema", urls)
 		}
 		d.Err = rapid.SampledFrom([]string{"", "", "", "", "partial", "partial_deep", "other", "other"}).Draw(t, "err")
+		if rapid.IntRange(0, 5).Draw(t, "str_det") == 0 {
+			kv := vk.GenKV(strOpts).Draw(t, "str_det.kv")
+			kv = vk.KV{K: kv.K, T: "str", S: vk.Str(vk.GenText(3, true).Draw(t, "str_det.v"))}
+			d.StrDet = true
+			d.Res = Res{Kind: "attrs", Schema: pickSchema(t, "str_det.schema", urls), KVs: []vk.KV{kv}}
+			d.Err = rapid.SampledFrom([]string{"", "", "", "other"}).Draw(t, "str_det.err")
+		}
 		d.ViaOption = rapid.Bool().Draw(t, "via_option")
 		d.Split = rapid.Bool().Draw(t, "split")
 		c.Dets = append(c.Dets, d)
 	}
 	if rapid.IntRange(0, 2).Draw(t, "schema_opt") == 0 {
 		c.SchemaOpt = true
-		c.Schema = rapid.SampledFrom(urls).Draw(t, "opt_schema")
+		c.Schema = pickSchema(t, "opt_schema", urls)
 	}
 	c.Spare = rapid.IntRange(0, 2).Draw(t, "spare")
 	c.Prefix = rapid.IntRange(0, n).Draw(t, "prefix")
@@ -121,10 +145,14 @@ type fakeDetector struct {
 	res   *resource.Resource
 	err   error
 	calls *[]int
+	inner resource.Detector // when set: log the call and delegate
 }
 
-func (d fakeDetector) Detect(context.Context) (*resource.Resource, error) {
+func (d fakeDetector) Detect(ctx context.Context) (*resource.Resource, error) {
 	*d.calls = append(*d.calls, d.idx)
+	if d.inner != nil {
+		return d.inner.Detect(ctx)
+	}
 	return d.res, d.err
 }
 
@@ -133,6 +161,17 @@ func instantiate(c DetCase, calls *[]int) ([]fakeDetector, []error) {
 	dets := make([]fakeDetector, len(c.Dets))
 	sentinels := make([]error, len(c.Dets))
 	for i, d := range c.Dets {
+		if d.StrDet && len(d.Res.KVs) == 1 {
+			kv := d.Res.KVs[0]
+			var ferr error
+			if d.Err == "other" {
+				sentinels[i] = fmt.Errorf("string source %d failed", i)
+				ferr = sentinels[i]
+			}
+			val := string(kv.S)
+			dets[i] = fakeDetector{idx: i, calls: calls, inner: resource.StringDetector(d.Res.Schema, attribute.Key(kv.K), func() (string, error) { return val, ferr })}
+			continue
+		}
 		fd := fakeDetector{idx: i, res: d.Res.build(), calls: calls}
 		switch d.Err {
 		case "partial":
@@ -182,17 +221,18 @@ func expect(plan []planItem, start rmodel) expectation {
 		if !it.silent {
 			e.calls = append(e.calls, it.idx)
 		}
-		switch d.Err {
+		derr := d.effErr()
+		switch derr {
 		case "other":
 			e.nOther++
 			e.others = append(e.others, it.idx)
 		case "partial", "partial_deep":
 			e.nPartial++
 		}
-		if d.Err != "" && i < len(plan)-1 {
+		if derr != "" && i < len(plan)-1 {
 			e.failingInMiddle = true
 		}
-		if d.Err == "other" || d.Res.Kind == "nil" {
+		if derr == "other" || d.Res.Kind == "nil" {
 			continue
 		}
 		cm := newCtorModel(vk.ToAttrs(d.Res.KVs))
@@ -454,25 +494,35 @@ func runDetect(c DetCase) ([]vk.Violation, vk.Info) {
 	info.ClassIf(c.TailDet && !c.NoTailA, "shared_array:following_option_is_WithDetectors")
 	info.ClassIf(!c.TailDet && !c.NoTailA, "shared_array:following_option_is_WithAttributes")
 	info.ClassIf(callerSliceChanged, "caller_detector_slice_changed(not asserted)")
+	var urlsUsed []string
+	if c.SchemaOpt {
+		urlsUsed = append(urlsUsed, c.Schema)
+	}
 	for _, d := range c.Dets {
+		urlsUsed = append(urlsUsed, d.Res.schema())
+		info.ClassIf(d.StrDet, "resource.StringDetector")
+		info.ClassIf(d.StrDet && d.effErr() == "other", "resource.StringDetector_fails")
+		info.ClassIf(d.StrDet && d.effErr() == "" && c.SchemaOpt && c.Schema != "" && c.Schema == d.Res.Schema, "StringDetector_and_WithSchemaURL_same_url")
+		info.ClassIf(d.Res.Kind == "new", "detector_resource_from_New(WithSchemaURL)")
 		info.ClassIf(d.Res.Kind == "nil" && d.Err == "", "detector_returns_(nil,nil)")
 		info.ClassIf(d.Res.Kind == "nil" && d.Err != "", "detector_returns_(nil,err)")
 		info.ClassIf(d.Res.Kind != "nil" && d.Err == "other" && len(d.Res.KVs) > 0, "skipped_resource_has_attributes")
 		info.ClassIf(d.Res.Kind != "nil" && (d.Err == "partial" || d.Err == "partial_deep") && len(d.Res.KVs) > 0, "partial_resource_has_attributes")
 	}
+	schemaClasses(info.ClassIf, urlsUsed...)
 	return rep.vs, dedupe(info)
 }
 
 func TestDetectFold(t *testing.T) {
 	vk.Run(t, vk.Spec[DetCase]{
 		Property: "C19", Check: "detect_fold",
-		Rule: "lists of 0..6 fake detectors, each returning nil | Empty() | a resource built from a generated kv list with a schema URL, together with no error | an error wrapping ErrPartialResource (once or twice) | an unrelated error; " +
+		Rule: "lists of 0..6 fake detectors, each returning nil | Empty() | a resource built from a generated kv list with a schema URL (\"\" or one of a per-case pool of opaque strings with near misses, see schema_test.go; built by NewWithAttributes or New(WithSchemaURL...)), or the library's resource.StringDetector(url, key, fn), together with no error | an error wrapping ErrPartialResource (once or twice) | an unrelated error; " +
 			"run through resource.Detect and through resource.New (options split into several WithDetectors / WithAttributes, optional WithSchemaURL before or after), " +
 			"and as a hostile caller: all detectors in one caller-owned array with spare capacity, optsA = WithDetectors(common prefix) + a following WithAttributes / WithDetectors option and " +
 			"optsB = WithDetectors(append(common, rest...)) + WithAttributes prepared up front, evaluated A, B, A, B, then Detect over the caller's slice; " +
 			"all lent slices are scribbled over at the end and every resource handed out is re-checked; " +
 			"non-trivial = a kept detector overrides a key of an earlier one with a different value, or a failing detector is followed by another detector; distinct = distinct case encodings",
-		Quick: 40000, Thorough: 500000,
+		Quick: 30000, Thorough: 500000,
 		Gen: genDetect, Run: runDetect,
 	})
 }
